@@ -14,7 +14,6 @@ Variable rank : key -> nat.
 Variable ord : key -> list rkind.
 Hypothesis Hrank : wf_rank rules rank.
 Hypothesis Hdisc : forall k, r_disc (rules k) = [].
-Hypothesis Hsingle : forall k, r_single (rules k) = [].
 Hypothesis Hord : forall k, In RReq (ord k).
 Notation cvK := (cvK rules env F rank).
 Notation concl := (concl rules F).
@@ -41,6 +40,8 @@ Proof.
   assert (Hca : forall k, cAt su' k = cAt su k) by (intros k; unfold cAt; now rewrite HR).
   assert (Hba : forall k, bAt su' k = bAt su k) by (intros k; unfold bAt; now rewrite HR).
   assert (Hdp : forall k, deps su' k = deps su k) by (intros k; unfold deps; now rewrite HR).
+  assert (HdpC : forall k, deps su' k = deps su k \/ (deps su' k = drop_single (deps su k) /\ ~ curk su' k /\ bAt su' k = bAt su k)) by (intros; left; apply Hdp).
+  assert (HdpS : forall k, kind_of su k = KScanning \/ kind_of su k = KDoesNotNeedToRun -> deps su' k = deps su k) by (intros; apply Hdp).
   assert (Hcu : forall k, curk su' k <-> curk su k) by (intros k; apply curk_same; auto).
   assert (Htask : forall t, task_of su' t = task_of su t) by (intros; unfold task_of; now rewrite Htk).
   assert (HU : forall y, Unrouted su y <-> Unrouted su' y) by (apply Unrouted_same; auto; intros k; now rewrite RI).
@@ -94,6 +95,8 @@ Proof.
   assert (Hca : forall k', cAt s' k' = cAt su k') by (intros; unfold cAt; now rewrite HR).
   assert (Hba : forall k', bAt s' k' = bAt su k') by (intros; unfold bAt; now rewrite HR).
   assert (Hdp : forall k', deps s' k' = deps su k') by (intros; unfold deps; now rewrite HR).
+  assert (HdpC : forall k', deps s' k' = deps su k' \/ (deps s' k' = drop_single (deps su k') /\ ~ curk s' k' /\ bAt s' k' = bAt su k')) by (intros; left; apply Hdp).
+  assert (HdpS : forall k', kind_of su k' = KScanning \/ kind_of su k' = KDoesNotNeedToRun -> deps s' k' = deps su k') by (intros; apply Hdp).
   assert (Hcu : forall k', curk s' k' <-> curk su k').
   { intros k'. unfold curk. rewrite HK, Hba, He. destruct (N.eqb k' k) eqn:E; [|tauto]. apply N.eqb_eq in E. subst k'. rewrite Hk.
     split; intros [H _]; [destruct Hkd' as [-> | ->]|]; discriminate. }
@@ -135,7 +138,7 @@ Proof.
       * apply N.eqb_eq in E. subst k'. intros ->. right. destruct Hkd as [H|(_ & Hall)]; [discriminate|].
         destruct (b_scanning _ _ _ _ _ _ HS k Hk) as (B1 & B2 & B3).
         assert (Hrow : rowok su k) by (apply (b_rows _ _ _ HC); auto; unfold idle; rewrite Hk; split; discriminate).
-        destruct (row_clean rules env F rank Hrank Hdisc root su k HT Hrow B2 Hall) as (v & Hv & Hcv & Hco).
+        destruct (row_clean rules env F rank Hrank Hdisc su k (b_cur _ _ _ _ _ _ HT) Hrow B2 Hall) as (v & Hv & Hcv & Hco).
         split; [|split; [|split]].
         -- exists v. split; [now rewrite Hst|]. split; auto. apply (concl_same rules F su s' k v (Hdp k)); auto.
         -- intros d. rewrite Hdp. intros Hd. apply Hcu. now apply Hall.
@@ -216,7 +219,7 @@ Proof.
     rewrite (scanning_not_scanned s1 inp Hk1) in Ht1. discriminate. }
   assert (Hr1 : rinfo_of s1 k = rinfo_of s k).
   { destruct KS as (KS1 & _). rewrite (KS1 k); [apply rinfo_of_touch|auto]. }
-  destruct (BInv_demand_rule rules env F rank ord Hsingle Hord root _ [] [rq1] s1 inp HI2 HB2 Hok2 Ht1) as (b2 & s2 & E2 & H2). rewrite E2.
+  destruct (BInv_demand_rule rules env F rank ord Hord root _ [] [rq1] s1 inp HI2 HB2 Hok2 Ht1) as (b2 & s2 & E2 & H2). rewrite E2.
   destruct (demand_rule_post rules ord _ _ _ _ _ E2 HI2 Hex Ht1) as (HI3 & KD & Hf2 & Ht2).
   destruct (H2 (proj1 HI3)) as (HB3 & Hav & Hnav).
   assert (Hok3 : Forall (sreq_ok s2) [rq1]).
